@@ -18,6 +18,7 @@ import itertools
 from fractions import Fraction
 
 from .. import arr as A
+from ..cachekey import scan_module
 from ..report import Finding, AnalysisError
 from .common import *
 from .c02 import group, spec_action, det
@@ -171,8 +172,13 @@ def tail_rule(ctx, fn, cut_var, build_idx):
     path = pm.path(COMMON_MOD)
     flt = None
     for st in fn.body[build_idx:]:
+        if isinstance(st, ast.Assign) and len(st.targets) == 1 and isinstance(st.targets[0], ast.Subscript) and isinstance(st.value, ast.Name) and st.value.id == flt:
+            continue  # storing the finished list in a memo table (the key is decided by the CACHE rule)
         if isinstance(st, ast.Return):
-            if not (isinstance(st.value, ast.Name) and st.value.id == flt):
+            rv = st.value
+            if isinstance(rv, ast.Call) and isinstance(rv.func, ast.Name) and rv.func.id in ("list", "tuple") and len(rv.args) == 1:
+                rv = rv.args[0]
+            if not (isinstance(rv, ast.Name) and rv.id == flt):
                 out.append(("tail", st.lineno, "the function returns %s, not the filter list %s" % (ast.unparse(st.value), flt), True))
             continue
         if isinstance(st, ast.Expr) and isinstance(st.value, ast.Constant):
@@ -384,6 +390,14 @@ def run(ctx):
         else:
             raise AnalysisError(what)
     ev.functions.update([COMMON_MOD + ".get_invariant_filters_dict", COMMON_MOD + ".get_invariant_filters_list", COMMON_MOD + ".get_invariant_filters"])
+    # CACHE: memo keys of the generator module and of the symbol caches it relies on
+    n_c = 0
+    for mod in (COMMON_MOD, "ginjax.geometric.constants"):
+        found, n = scan_module(pm.module(mod))
+        n_c += n
+        for q, line, what in found:
+            ctx.add(Finding("C03", "C03.CACHE", q, what, pm.path(mod), line, None, "memo-key"))
+    ev.instances("C03.CACHE.memo_functions", n_c, floor=3)
     th = ctx.thorough()
     jobs = []
     for D in (2, 3):
